@@ -719,3 +719,64 @@ CHECKS["C02"]["note"] = (
     'are not required to repair it; the free-running 16-process clause of the quantifier is sampling and not '
     'decided; known finding D5:removes-database-in-use is listed in known_findings.json.'
 )
+
+CHECKS["C19"]["technique"] = (
+    'model families x option sets within distance 1 of {cache} / {codegen}, delay-duration sequences, and '
+    'compile-change-recompile-load folder histories; every result vs a fresh compile in canonical form'
+)
+
+CHECKS["C19"]["text"] = (
+    'Ten model families (parameter-dependent attributes, positive/negative alias chains, delay, delay in a loop, '
+    'several delays, String/Integer/Boolean, arrays, an array first in every variable category, affine, minimal) '
+    'bare and with a ballast block that adds a member with parameter-dependent attributes to every variable '
+    'category (state, algebraic, fixed and free input, 2 constants, 3 parameters, String parameter and constant), '
+    'under every option set within distance 1 of {cache} (10 simplification switches, 5 other options, '
+    'eliminable_variable_expression, two-option sets); a delay-duration family: every sequence of 1 (x all option '
+    'sets), 2 (x {cache}, +replace_constant_values, +replace_parameter_values) and, thorough, 3 delays over the 8 '
+    'duration kinds = subsets of {constant, parameter, fixed input} the duration depends on; thorough adds '
+    '{codegen} x 6 option sets per model (compiled shared libraries). The model returned by the compiling call and '
+    'the CachedModel returned by the next call are reduced to names/order/shapes/Python types, every attribute at 2 '
+    'parameter points, outputs, delay states, alias relation, exposed delay arguments and the four functions at 2 '
+    'points, and compared. Folder histories on three two-folder models (model folder + library_folders): compile, '
+    'one change out of {option, library source, model-folder source} (thorough: every sequence of <= 2), '
+    "transfer_model (recompiles next to the old artefacts), transfer_model (loads); every call's result is compared "
+    'with a compile of the current sources and options in a separate clean folder; {cache} for all three models, '
+    '{codegen} for one model in quick and all three in thorough. 625 cases quick, 1359 thorough.'
+)
+
+CHECKS["C19"]["note"] = (
+    'Fixed model families; 2 grid points; a case only counts when the call that should load really loaded the '
+    'cache. An attribute given once for an array variable equals the same value per element. History edits follow a '
+    'logical clock (every edit later than everything written before it). A stale artefact that is numerically '
+    'identical (e.g. only the pymoca version changed) is not observable.'
+)
+
+CHECKS["C01"]["technique"] = (
+    'explicit-state BFS over cache-event histories on a real cache folder (deviation-bounded), results edited in '
+    'place by the caller + every prefix of a stored pickle'
+)
+
+CHECKS["C01"]["text"] = (
+    "Every history of length <= 4 with <= 2 deviations (quick; thorough: 'wide' <= 4 with <= 3 over everything, "
+    "'deep' <= 6 with <= 3 without the near-duplicates) over parse(OK1/OK2/BAD, expiration, always_update), parse "
+    'of 8 near-duplicate texts (a base text with a multi-line / blank- / tab- / case- / accent-carrying string '
+    'literal and its image under LF->CRLF, trailing-blank stripping, blank-run collapsing, tab expansion, '
+    'lower-casing, accent change, NFD: different texts, different trees; all 56 ordered pairs), module reload, '
+    'version change (incl. .dirty), clock jumps, entry faults (empty, truncated, garbage, class gone, other-version '
+    'entry holding a different tree), layout faults and file faults is executed on the real parse() with the clock '
+    'and version behind seams; every returned tree is compared node for node (types included) with the uncached '
+    'parse of the same text, None iff syntax error; then the caller edits the returned tree in place (every '
+    'reachable container and pymoca object) and keeps it, so a later result that shares an object with an earlier '
+    'one differs; no row for the broken text, no None stored, .dirty leaves the folder untouched. Plus every 16th '
+    '(quick) / every (thorough) prefix of the stored pickle, followed by two parses.'
+)
+
+CHECKS["C01"]["note"] = (
+    'Deviation = fault, version change, clock jump or parse of a near-duplicate. Abstract state = database '
+    'abstraction (layouts, metadata keys, rows with stored key, version, data hash, last_hit bucketed by the cut '
+    'points parse() compares with) + initialised flag + version + results handed out per text in this process '
+    '(0..2, wide search 0..3). One process and one folder (sharing is C02); process state is assumed to live in '
+    'pymoca.parser (module reload = new process); near-duplicates with equal trees (outer blank lines, BOM, '
+    'comments) cannot violate the statement and are left out; pickles that load to a foreign object under the '
+    '*current* version are outside the alphabet.'
+)
